@@ -36,6 +36,7 @@ def fmtSym (name : String) : String :=
   match name with
   | "or" => "||" | "and" => "&&" | "xor" => "⊻" | "eq" => "⩵" | "ne" => "≠" | "lt" => "<" | "le" => "≤" | "gt" => ">" | "ge" => "≥"
   | "add" => "+" | "sub" => "-" | "mul" => "*" | "div" => "/" | "mod" => "%" | "pow" => "^"
+  | "matmul" => "**" | "dot" => "·" | "cross" => "⨯" | "solve" => "\\"
   | "join" => "⋈" | "ljoin" => "⟕" | "rjoin" => "⟖" | "fjoin" => "⟗" | "semi" => "⋉" | "anti" => "▷"
   | "union" => "∪" | "inter" => "∩" | "diff" => "∖" | "symdiff" => "Δ" | "subset" => "⊆" | "superset" => "⊇"
   | "psubset" => "⊊" | "psuperset" => "⊋" | "elem" => "∈" | "notelem" => "∉" | _ => "?"
@@ -44,15 +45,22 @@ def opName (o : Op) : String := (opTable.getD o.name ("?", "?", 0)).1
 
 def sp (xs : List String) : String := " ".intercalate xs
 
+/-- a kind annotation as the concatenation of its tokens' texts (what the harness prints): the punctuation
+    between the tokens is not part of any token -/
+def kindToks (k : String) : String := String.ofList (k.toList.filter (fun c => c.isAlphanum))
+
 mutual
 /-- the tree as the s-expression harness/src/c08s.rs writes for the real tree -/
 partial def sxF (nm : Names) : Fac → String
   | .lit n => nm.lits.getD n "?"
   | .var n => nm.ids.getD n "?"
-  | .call f args => if args.isEmpty then "(call " ++ nm.ids.getD f "?" ++ ")" else "(call " ++ nm.ids.getD f "?" ++ " " ++ sp (args.map (sxE nm)) ++ ")"
+  | .call f args => if args.isEmpty then "(call " ++ nm.ids.getD f "?" ++ ")" else "(call " ++ nm.ids.getD f "?" ++ " " ++ sp (args.map (sxA nm)) ++ ")"
   | .mat rows => if rows.isEmpty then "(mat)" else "(mat " ++ sp (rows.map (fun r => "(row " ++ sp (r.map (sxE nm)) ++ ")")) ++ ")"
   | .tup es => if es.isEmpty then "(tup)" else "(tup " ++ sp (es.map (sxE nm)) ++ ")"
   | .set es => if es.isEmpty then "(set)" else "(set " ++ sp (es.map (sxE nm)) ++ ")"
+  | .recd bs => "(rec " ++ sp (bs.map (fun b => match b with
+      | .mk x k e => "(bind " ++ nm.ids.getD x "?" ++ " " ++ (match k with | some k => kindToks (nm.kinds.getD k "?") | none => "-") ++ " " ++ sxE nm e ++ ")")) ++ ")"
+  | .map ms => if ms.isEmpty then "(map)" else "(map " ++ sp (ms.map (fun m => match m with | .mk k v => "(kv " ++ sxE nm k ++ " " ++ sxE nm v ++ ")")) ++ ")"
   | .slice x subs => "(slice " ++ nm.ids.getD x "?" ++ " " ++ sp (subs.map (sxS nm)) ++ ")"
   | .paren t => "(paren " ++ sxT nm t ++ ")"
   | .neg f => "(neg " ++ sxF nm f ++ ")"
@@ -68,11 +76,10 @@ partial def sxE (nm : Names) : Ex Fac → String
 partial def sxS (nm : Names) : Syntax.Sub Fac → String
   | .all => ":"
   | .ex e => sxE nm e
+partial def sxA (nm : Names) : Syntax.Arg Fac → String
+  | .pos e => sxE nm e
+  | .named x e => "(named " ++ nm.ids.getD x "?" ++ " " ++ sxE nm e ++ ")"
 end
-
-/-- a kind annotation as the concatenation of its tokens' texts (what the harness prints): the punctuation
-    between the tokens is not part of any token -/
-def kindToks (k : String) : String := String.ofList (k.toList.filter (fun c => c.isAlphanum))
 
 def sxStmt (nm : Names) : Stmt → String
   | .define mu x k e => "(def " ++ (if mu then "1" else "0") ++ " " ++ nm.ids.getD x "?" ++ " " ++
@@ -81,17 +88,21 @@ def sxStmt (nm : Names) : Stmt → String
   | .opAssign x subs k e => "(opa " ++ toString k ++ " " ++ nm.ids.getD x "?" ++ " [" ++ sp (subs.map (sxS nm)) ++ "] " ++ sxE nm e ++ ")"
 
 /-- the formatter's spelling of a token and the spacing around it: operators between single spaces,
-    `, ` in call arguments and sets, `,` in tuples and subscripts, `; ` between matrix rows -/
+    `, ` in call arguments, sets, records and maps, `: ` after an argument name, a binding name and a map key, `,` in
+    tuples and subscripts, `; ` between matrix rows, `{:}` for the empty map -/
 def opAssignSym (k : Nat) : String := ["+=", "-=", "*=", "/=", "^="].getD k "?="
 
 mutual
 partial def txF (nm : Names) : Fac → String
   | .lit n => nm.lits.getD n "?"
   | .var n => nm.ids.getD n "?"
-  | .call f args => nm.ids.getD f "?" ++ "(" ++ ", ".intercalate (args.map (txE nm)) ++ ")"
+  | .call f args => nm.ids.getD f "?" ++ "(" ++ ", ".intercalate (args.map (txA nm)) ++ ")"
   | .mat rows => "[" ++ "; ".intercalate (rows.map (fun r => " ".intercalate (r.map (txE nm)))) ++ "]"
   | .tup es => "(" ++ ",".intercalate (es.map (txE nm)) ++ ")"
   | .set es => "{" ++ ", ".intercalate (es.map (txE nm)) ++ "}"
+  | .recd bs => "{" ++ ", ".intercalate (bs.map (fun b => match b with
+      | .mk x k e => nm.ids.getD x "?" ++ (match k with | some k => "<" ++ nm.kinds.getD k "?" ++ ">" | none => "") ++ ": " ++ txE nm e)) ++ "}"
+  | .map ms => if ms.isEmpty then "{:}" else "{" ++ ", ".intercalate (ms.map (fun m => match m with | .mk k v => txE nm k ++ ": " ++ txE nm v)) ++ "}"
   | .slice x subs => nm.ids.getD x "?" ++ "[" ++ ",".intercalate (subs.map (txS nm)) ++ "]"
   | .paren t => "(" ++ txT nm t ++ ")"
   | .neg f => "-" ++ txF nm f
@@ -107,6 +118,9 @@ partial def txE (nm : Names) : Ex Fac → String
 partial def txS (nm : Names) : Syntax.Sub Fac → String
   | .all => ":"
   | .ex e => txE nm e
+partial def txA (nm : Names) : Syntax.Arg Fac → String
+  | .pos e => txE nm e
+  | .named x e => nm.ids.getD x "?" ++ ": " ++ txE nm e
 end
 
 def txTarget (nm : Names) (x : Nat) (subs : List (Syntax.Sub Fac)) : String :=
